@@ -46,6 +46,13 @@ CLAIMED["C07"] = dict(
     note="Trusted: as C14. Which instance says what is obtained by asking pint's own check instances one by one in the uncommented run (validated against the pipeline's report on every run). Timeless clauses (disable, file/disable, locked) are exercised because every scenario needs them; the simulator's contribution is the clock and the watch loop. File-level comments against locked blocks are unspecified by the property and skipped. Syntax-error column ranges are excluded (parser-pool artefact, DESIGN 'Observations').",
 )
 
+CLAIMED["C03"] = dict(
+    design="5.1",
+    technique="simulated two-actor commit histories (feature author and base-branch maintainers interleaved, rebases, simulated commit clock) in a real scratch git repository; the real `pint ci` binary is evaluated after every feature commit and compared with a reference classifier over the generator's own rule-file model",
+    text="Histories of 1-7 commits over up to 6 rule files are generated from the operation alphabet of the property (add / modify / delete / pure rename of files; add / modify / delete / reorder / rename of rules; comment-only and whitespace-only edits; file- and rule-level control comments; edit-then-revert; base branch advancing; rebase). After every feature commit `pint ci --json` runs under a config with one `rule { match { state = [S] } report {} }` marker per state plus a state-less marker check; every rule at HEAD must carry exactly the state the reference computes from fork-point and HEAD content following the rename lineage, and the default-state check must have run exactly on the changed rules.",
+    note="Trusted: git 2.39 (real), the harness's YAML renderer and reference classifier (its own data model, not pint's parser). Preconditions, stated because the reference is ambiguous outside them: renames are pure `git mv` commits; a file version holding the same rule content twice, or one name several times for a changed rule, accepts any consistent state; moved-and-modified rules accept 'renamed' or 'modified'. No faults are injected (the property quantifies over histories). The state markers are observed without --offline because pint registers report checks under the name query/cost (DESIGN 'Observations').",
+)
+
 NA = {
     "C01": "pure function of the file bytes (agreement of two acceptors): no schedule, clock, fault or peer for a simulator to own; deciding it is differential input generation, which this task's technique family excludes",
     "C02": "totality of a pure function of (bytes, parser mode): nothing time-, schedule- or fault-dependent in the anchored code",
